@@ -738,8 +738,57 @@ static void two_receivers_case()
     mc::outcome(mc::fmt("%s+%s ok=%d%d", gs::codec_name(codec[0]), gs::codec_name(codec[1]), !bad[0], !bad[1]));
 }
 
+// ---- long history: ONE receiver per codec consumes >= 200000 bytes of encoder output ---------------------------
+// (thorough 400000).  Payload length and content vary from frame to frame (lengths 0..12, stride coprime to 13), so
+// that every offset of a frame relative to any 2^k byte/frame count inside the receiver object occurs.  Exactly one
+// packet per frame, on its last byte, equal to the payload - for every frame of the run.
+static void long_history_case()
+{
+    int codec = mc::choose(gs::NCODEC);
+    gs::Markers M = gsref::golden(codec);
+    size_t want = mc::thorough() ? 400000 : 200000;
+    mc::describe("codec=%s one receiver (capacity 16) fed the encoder's output for payloads of varying length until %zu bytes are consumed",
+                 gs::codec_name(codec), want);
+    mc::nontrivial();
+    Exact buf(16);
+    mc::crash_context("C04.%s.long_history.memory", gs::codec_name(codec));
+    std::unique_ptr<gs::Receiver> r(gs::make_receiver(codec, buf.p, 16));
+    size_t fed = 0;
+    unsigned k = 0, bad = 0;
+    for (; fed < want && bad < 3; k++)
+    {
+        unsigned len = (k * 5) % 13;
+        Bytes p;
+        for (unsigned i = 0; i < len; i++)
+        {
+            unsigned sel = (k * 3 + i * 5) % 8;
+            p.push_back(sel == 0 ? M.start : sel == 1 ? M.stub : sel == 2 ? M.stop : sel == 3 ? 0x00 : sel == 4 ? 0xFF : (uint8_t)(k + i * 11));
+        }
+        Bytes f = lib_encode(codec, p);
+        for (size_t i = 0; i < f.size(); i++, fed++)
+        {
+            gs::Status st = r->feed(f[i]);
+            bool last = i + 1 == f.size();
+            if (last != (st == gs::NEWPACKAGE) || (last && r->packet() != p))
+            {
+                bad++;
+                mc::violation(mc::fmt("C04.%s.long_history.%s", gs::codec_name(codec),
+                                      last && st == gs::NEWPACKAGE ? "packet_content" : "packet_not_exactly_on_last_byte"),
+                              "frame #%u, %zu bytes consumed by this receiver so far: payload=%s frame=%s byte %zu answered %s", k, fed,
+                              gsref::hex(p).c_str(), gsref::hex(f).c_str(), i, gs::status_name(st));
+                fed += f.size() - i;
+                break;
+            }
+        }
+    }
+    mc::crash_context("C04.harness");
+    mc::outcome(mc::fmt("%s frames=%u bad=%u", gs::codec_name(codec), k, bad));
+    mc::more_cases(k ? k - 1 : 0, k ? k - 1 : 0);
+}
+
 MC_INIT
 {
+    mc::add_check("long_history", long_history_case);
     mc::add_check("two_receivers_one_process", two_receivers_case);
     for (int codec = 0; codec < gs::NCODEC; codec++)
         mc::add_check(mc::fmt("cut_then_frames.%s", gs::codec_name(codec)), [codec] { cut_then_frames_case(codec); });
